@@ -298,7 +298,14 @@ class TreeGen:
 
     def k_slice(self, r, c, d):
         R, C = r + self.integer(0, 2), c + self.integer(0, 2)
-        return {"k": "slice", "ch": [self.op(R, C, d)], "s0": self.index_for(r, R), "s1": self.index_for(c, C)}
+        s0, s1 = self.index_for(r, R), self.index_for(c, C)
+        if "mixed_slice" in self.avoid and ("ix" in s0) != ("ix" in s1):
+            # both selections of the same form (a slice object paired with an index array: open finding recorded under C18)
+            if "ix" in s0:
+                s1 = {"ix": list(range(C))[slice(*s1["sl"])]}
+            else:
+                s0 = {"ix": list(range(R))[slice(*s0["sl"])]}
+        return {"k": "slice", "ch": [self.op(R, C, d)], "s0": s0, "s1": s1}
 
     def partition(self, n):
         k = self.integer(2, min(3, n))
